@@ -145,12 +145,21 @@ CORPUS = [
     ('left-rec-inline-list', [ru('start', [al([['r', '_list']])]), ru('_list', [al([['r', '_list'], L(','), ['r', 'item']]), al([['r', 'item']])]), ru('item', [al([tA]), al([tB, m([tC])])])], ['a', 'a,b', 'a,bc,a', 'b,b,b,bc']),
     ('template', [ru('start', [al([['c', 'sep', [tA, L(',')]], tX, ['c', 'sep', [['r', 'w'], L('+')]]])]), ru('w', [al([tB]), al([tC, tC])]),
                   ru('sep', [al([['p', 'x'], q(g([['p', 's'], ['p', 'x']]), '*')])], params=['x', 's'])], ['axb', 'a,axb+cc', 'a,a,axcc+b+b']),
+    # a !-template used inside another template with a literal argument: keeping tokens must not leak into the outer rule
+    ('template-bang-nested', [ru('start', [al([['c', 'outer', [L('a')]]])]), ru('outer', [al([['c', 'inner', [['p', 'x']]], ['p', 'x']])], params=['x']),
+                              ru('inner', [al([['p', 'x'], L('z')])], mods='!', params=['x'])], ['aza']),
+    ('template-bang-sibling', [ru('start', [al([['c', 'inner', [L('a')]], ['c', 'plain', [L('a')]]])]), ru('plain', [al([['p', 'x'], tB])], params=['x']),
+                               ru('inner', [al([['p', 'x'], L('z')])], mods='!', params=['x'])], ['azab']),
     ('template-inline', [ru('start', [al([['c', '_par', [tA]], ['c', '_par', [['r', 'w']]]])]), ru('w', [al([tB])]),
                          ru('_par', [al([L('('), ['p', 'x'], L(')')])], params=['x'])], ['(a)(b)']),
     # a repeated literal and the repeated named terminal it coincides with must not share a helper rule
     ('literal-vs-named-repeat', [ru('start', [al([['r', 'a'], L('z'), ['r', 'b']])]), ru('a', [al([q(L('a'), '+')])]), ru('b', [al([q(tA, '+')])])], ['aazaa', 'aza']),
     ('named-vs-literal-repeat', [ru('start', [al([['r', 'b'], L('z'), ['r', 'a']])]), ru('b', [al([q(tA, '+')])]), ru('a', [al([q(L('a'), '+')])])], ['aazaa', 'aza']),
     ('literal-vs-named-big-repeat', [ru('start', [al([['r', 'a'], L('z'), ['r', 'b']])]), ru('a', [al([q(L('a'), '~', 2, 3)])]), ru('b', [al([q(tA, '~', 2, 3), tX])])], ['aazaax', 'aaazaaax']),
+    ('literal-vs-named-huge-repeat', [ru('start', [al([['r', 'a'], L('z'), ['r', 'b']])]), ru('a', [al([q(L('a'), '~', 50, 52)])]), ru('b', [al([q(tA, '~', 50, 52), tX])])],
+     ['a' * 50 + 'z' + 'a' * 50 + 'x', 'a' * 52 + 'z' + 'a' * 51 + 'x']),
+    ('named-vs-literal-huge-repeat', [ru('start', [al([['r', 'b'], L('z'), ['r', 'a']])]), ru('b', [al([q(tA, '~', 60, 60), tX])]), ru('a', [al([q(L('a'), '~', 60, 60)])])],
+     ['a' * 60 + 'xz' + 'a' * 60]),
     ('literal-vs-named-star-group', [ru('start', [al([['r', 'a'], L('z'), ['r', 'b']])]), ru('a', [al([q(g([L('a'), tB]), '*')])]), ru('b', [al([q(g([tA, tB]), '*')])])], ['abzab', 'z', 'ababzab']),
     ('literal-eq-named', [ru('start', [al([L('a'), tA, ['r', 'k']])]), ru('k', [al([L('a'), tA])], mods='!')], ['aaaa']),
     ('underscore-term-bang', [ru('start', [al([tU, tA, ['r', 'k']])]), ru('k', [al([tU, tA])], mods='!')], ['uaua']),
